@@ -298,6 +298,82 @@ type embedsPtr struct {
 	Other string
 }
 
+// ambiguous promoted fields: Name is promoted from two embedded structs of the same depth, so the struct has NO field
+// Name (Go's selector rules); Only is promoted from one of them.
+type ambA struct {
+	Name string
+	Only string
+}
+type ambB struct{ Name string }
+type amb struct {
+	ambA
+	ambB
+	Other string
+}
+
+// sharedItems: the Names slices of the items are windows into one backing array with spare capacity behind them.
+type sharedItem struct{ Names []string }
+type sharedItems struct{ Items []*sharedItem }
+
+func newSharedItems() *sharedItems {
+	backing := []string{"n0", "n1", "n2", "n3", "n4", "n5"}
+	return &sharedItems{Items: []*sharedItem{{Names: backing[1:2]}, {Names: backing[0:1]}, {Names: backing[2:4]}, {Names: backing[4:5]}}}
+}
+
+// dump renders a value deeply (pointers followed, bounded depth; slices with the elements BEHIND their length up to
+// the capacity, which belong to the caller too) for the "extraction does not change the message" comparison.
+func dump(v reflect.Value, depth int) string {
+	if !v.IsValid() || depth > 6 {
+		return "?"
+	}
+	switch v.Kind() {
+	case reflect.Pointer, reflect.Interface:
+		if v.IsNil() {
+			return "nil"
+		}
+		return "&" + dump(v.Elem(), depth+1)
+	case reflect.Struct:
+		out := "{"
+		for i := 0; i < v.NumField(); i++ {
+			out += v.Type().Field(i).Name + ":" + dump(v.Field(i), depth+1) + " "
+		}
+		return out + "}"
+	case reflect.Slice:
+		if v.IsNil() {
+			return "nil[]"
+		}
+		full := v
+		if v.Cap() > v.Len() && v.Cap()-v.Len() <= 16 && v.CanInterface() {
+			full = v.Slice(0, v.Cap())
+		}
+		out := fmt.Sprintf("[len=%d:", v.Len())
+		for i := 0; i < full.Len() && i < 80; i++ {
+			out += dump(full.Index(i), depth+1) + ","
+		}
+		return out + "]"
+	case reflect.Array:
+		out := "["
+		for i := 0; i < v.Len() && i < 80; i++ {
+			out += dump(v.Index(i), depth+1) + ","
+		}
+		return out + "]"
+	case reflect.String:
+		s := v.String()
+		if len(s) > 40 {
+			s = s[:40]
+		}
+		return fmt.Sprintf("%q", s)
+	case reflect.Map:
+		return fmt.Sprintf("map(%d)", v.Len())
+	case reflect.Func, reflect.Chan, reflect.UnsafePointer:
+		return v.Kind().String()
+	}
+	if v.CanInterface() {
+		return fmt.Sprint(v.Interface())
+	}
+	return v.Kind().String()
+}
+
 // cyc is a message that can refer to itself.
 type cyc struct {
 	Name string
@@ -467,6 +543,7 @@ func exotics() []interface{} {
 	pin := &in
 	return []interface{}{
 		embedsPtr{Other: "o"}, &embedsPtr{Other: "o"}, &embedsPtr{inner: in, Other: "o"},
+		&amb{ambA: ambA{Name: "a-name", Only: "only"}, ambB: ambB{Name: "b-name"}, Other: "o"}, newSharedItems(),
 		embedsVal{inner: *in}, &embedsVal{},
 		unexported{key: "u", Key: "e", keys: []string{"z"}}, &unexported{},
 		iface{Any: in, Anys: []interface{}{in, "s", nil, 3}}, &iface{Any: "str"}, &iface{Any: *in}, &iface{},
@@ -489,7 +566,7 @@ func exotics() []interface{} {
 }
 
 // ExoticLocators are tried against the exotic values.
-var ExoticLocators = []string{"key", "keys", "Key", "other", "inner.key", "inner", "any", "any.key", "anys", "anys.key", "m", "m.a", "mP.a.key", "pP.key", "pP", "arr", "arrP.key", "sS", "f", "c", "b", "u", "err", "in.key", "in.keys", "pIn.key", "pIn.keys",
+var ExoticLocators = []string{"items.names", "only", "ambA.name", "key", "keys", "Key", "other", "inner.key", "inner", "any", "any.key", "anys", "anys.key", "m", "m.a", "mP.a.key", "pP.key", "pP", "arr", "arrP.key", "sS", "f", "c", "b", "u", "err", "in.key", "in.keys", "pIn.key", "pIn.keys",
 	"token", "items.key", "items.other", "items", "extra", "channelPool.maxSize", "channelPool", "method.name", "method.affinity.affinityKey", "method.affinity", "name", "message", "state", "sizeCache", "unknownFields", "", ".", "..", "key.", ".key", "key..x", "a.b.c.d.e.f", "kéy", "ключ", "key key", "KEY", "\x00", "key\n",
 	"region", "zone", "names", "alpha", "beta", "gamma", "delta", "name4", "region4", "name5", "region5", "name6", "region6", "name7", "region7", "zone7", "sub.name", "sub.region", "sub.zone", "sub.alpha", "sub.sub.name",
 	"emb1.name", "emb1.emb2.emb3.region", "emb3.zone", "emb2.beta",
@@ -668,6 +745,15 @@ func Check(c *Case) (failure string, labels map[string]int, nontrivial bool) {
 		msg = ex[(c.Exotic-1)%len(ex)]
 		labels["exotic"]++
 	}
+	// the reference traversal runs BEFORE the library sees the message: an extraction that writes into the message
+	// (its slices are the caller's) must not be able to make the reference agree with it
+	exact := (proto || protoLike(reflect.TypeOf(msg), map[reflect.Type]bool{})) && simpleLocator(c.Locator)
+	var preWant []string
+	var preErr error
+	if exact {
+		preWant, preErr = Ref(reflect.ValueOf(msg), strings.Split(c.Locator, "."), 0)
+	}
+	before := fmt.Sprintf("%+v", dump(reflect.ValueOf(msg), 0))
 	var got []string
 	var gerr error
 	var panicked interface{}
@@ -675,6 +761,11 @@ func Check(c *Case) (failure string, labels map[string]int, nontrivial bool) {
 		defer func() { panicked = recover() }()
 		got, gerr = grpcgcp.VerifKeys(c.Locator, msg)
 	}()
+	if panicked == nil {
+		if after := fmt.Sprintf("%+v", dump(reflect.ValueOf(msg), 0)); after != before {
+			return fmt.Sprintf("extraction changed the message: locator %q, before %s, after %s", c.Locator, before, after), labels, true
+		}
+	}
 	c.Got = got
 	if panicked != nil {
 		return fmt.Sprintf("extraction panicked: locator %q message %T %+v: %v", c.Locator, msg, msg, panicked), labels, true
@@ -713,6 +804,22 @@ func Check(c *Case) (failure string, labels map[string]int, nontrivial bool) {
 	}
 	if !(proto || protoLike(reflect.TypeOf(msg), map[reflect.Type]bool{})) || !simpleLocator(c.Locator) {
 		labels["totality-and-soundness-only"]++
+		if gerr == nil && simpleLocator(c.Locator) {
+			// "a path that names a missing field is an error": by Go's selector rules a name promoted from two embedded
+			// structs of the same depth names no field
+			tv := reflect.ValueOf(msg)
+			for i := 0; i < 4 && tv.IsValid() && (tv.Kind() == reflect.Pointer || tv.Kind() == reflect.Interface) && !tv.IsNil(); i++ {
+				tv = tv.Elem()
+			}
+			if tv.IsValid() && tv.Kind() == reflect.Struct {
+				seg := strings.Split(c.Locator, ".")[0]
+				if _, ok := tv.Type().FieldByName(upperFirst(seg)); !ok && seg != "" {
+					if _, ok2 := tv.Type().FieldByName(strings.Title(seg)); !ok2 {
+						return fmt.Sprintf("locator %q: %T has no field %q (ambiguous or missing), extraction returned keys=%q instead of an error", c.Locator, msg, seg, got), labels, true
+					}
+				}
+			}
+		}
 		if gerr == nil {
 			reach := map[string]bool{}
 			reachable(reflect.ValueOf(msg), 0, reach)
@@ -737,7 +844,7 @@ func Check(c *Case) (failure string, labels map[string]int, nontrivial bool) {
 		}
 		return "", labels, true
 	}
-	want, werr := Ref(reflect.ValueOf(msg), strings.Split(c.Locator, "."), 0)
+	want, werr := preWant, preErr
 	c.Want = want
 	if (gerr != nil) != (werr != nil) {
 		return fmt.Sprintf("locator %q message %+v: extractor returned keys=%q err=%v, the reference traversal keys=%q err=%v", c.Locator, msg, got, gerr, want, werr), labels, true
